@@ -13,7 +13,7 @@ import (
 )
 
 type trackInfo struct {
-	labels map[int]string       // object id -> label
+	labels map[int]string // object id -> label
 	root   int
 	rootT  *types.Struct
 }
